@@ -1,0 +1,10 @@
+//go:build verif
+
+package bft
+
+// Test-only hook for the external verification harness in /verif (build tag `verif`); adds an exported entry point, no behaviour change.
+
+// VerifSetProposalVoteDeadline sets the approve-list proposal voting deadline (unix milliseconds) that the BFT loop
+// normally sets when a new height starts; lets a harness that drives the controller without the BFT timer loop put a node
+// into the APPROVE_LIST governance mode (Controller.currentProposalVoteConfig)
+func (b *BFT) VerifSetProposalVoteDeadline(unixMilli int64) { b.deadlineMs.Store(unixMilli) }
